@@ -139,6 +139,11 @@ def generated(tier):
             if tier != 'quick' or len(sh) <= 2:
                 c, d2 = C.compose(lines, info, keys)
                 variants.append(('all', c, d2))
+            if len(sh) <= 2 or tier != 'quick':
+                # the rewritten text does not end in a newline; its last line carries ONE trailing blank
+                last = C.refs(lines[-1])
+                nonl = [C.refs(l) for l in lines[:-1]] + [last + [['s', 1, 'nl1']]]
+                variants.append(('nonl', nonl, []))
             for kind, rew, distinct in variants:
                 if tier == 'quick' and kind in ('ws', 'blank') and len(sh) == 3 and sid != 'S2':
                     continue
@@ -204,7 +209,8 @@ class C15(P.TextMixin, Harness):
 
     def observe(self, unit, inp):
         files = self.text_files(unit, inp, 'files2')
-        return self._out(self.real_load(SCHEMAS[unit['schema']], files, common.all_concrete(inp)))
+        return self._out(self.real_load(SCHEMAS[unit['schema']], files, common.all_concrete(inp),
+                                        final_newline=unit.get('rewrite') != 'nonl'))
 
     def expect(self, unit, inp, real):
         files = self.text_files(unit, inp)
